@@ -318,6 +318,39 @@ fn output_result_xml<T: serde::Serialize>(result: T) -> Result<()> {
         escaped
     }
 
+    // Keys of maps (rule names, ...) come from the server and are not necessarily usable as
+    // element names: such a key becomes `<entry key="...">`.
+    fn is_element_name(key: &str) -> bool {
+        let mut chars = key.chars();
+        matches!(chars.next(), Some(c) if c.is_ascii_alphabetic() || c == '_')
+            && chars.all(|c| c.is_ascii_alphanumeric() || matches!(c, '_' | '-' | '.'))
+    }
+
+    fn start_tag(key: &str) -> BytesStart<'_> {
+        if is_element_name(key) {
+            return BytesStart::new(key);
+        }
+
+        // (white space is written as character references too, attribute values get normalized)
+        let value = escape_xml(key)
+            .replace('\t', "&#x9;")
+            .replace('\n', "&#xA;")
+            .replace('\r', "&#xD;");
+        let mut tag = BytesStart::new("entry");
+        tag.push_attribute(quick_xml::events::attributes::Attribute {
+            key: quick_xml::name::QName(b"key"),
+            value: std::borrow::Cow::Owned(value.into_bytes()),
+        });
+        tag
+    }
+
+    fn end_tag(key: &str) -> BytesEnd<'_> {
+        match is_element_name(key) {
+            true => BytesEnd::new(key),
+            false => BytesEnd::new("entry"),
+        }
+    }
+
     // Define a recursive function `json_to_xml` to convert the JSON value into XML
     // format. The function takes a mutable reference to the XML writer, an
     // optional key as a string slice, and a reference to the JSON value to be
@@ -329,7 +362,7 @@ fn output_result_xml<T: serde::Serialize>(result: T) -> Result<()> {
             Value::Object(obj) => {
                 if let Some(key) = key {
                     // Start an XML element for the object.
-                    writer.write_event(Event::Start(BytesStart::new(key)))?;
+                    writer.write_event(Event::Start(start_tag(key)))?;
                 }
 
                 for (k, v) in obj {
@@ -339,7 +372,7 @@ fn output_result_xml<T: serde::Serialize>(result: T) -> Result<()> {
 
                 if let Some(key) = key {
                     // Close the XML element for the object.
-                    writer.write_event(Event::End(BytesEnd::new(key)))?;
+                    writer.write_event(Event::End(end_tag(key)))?;
                 }
             }
 
@@ -355,7 +388,7 @@ fn output_result_xml<T: serde::Serialize>(result: T) -> Result<()> {
             // If the JSON value is null, create an empty XML element.
             Value::Null => {
                 if let Some(key) = key {
-                    writer.write_event(Event::Empty(BytesStart::new(key)))?;
+                    writer.write_event(Event::Empty(start_tag(key)))?;
                 }
             }
 
@@ -365,7 +398,7 @@ fn output_result_xml<T: serde::Serialize>(result: T) -> Result<()> {
             _ => {
                 if let Some(key) = key {
                     // Start the XML element with the given key.
-                    writer.write_event(Event::Start(BytesStart::new(key)))?;
+                    writer.write_event(Event::Start(start_tag(key)))?;
                 }
 
                 // Convert the JSON value to a string, trimming quotes for non-string values.
@@ -380,7 +413,7 @@ fn output_result_xml<T: serde::Serialize>(result: T) -> Result<()> {
 
                 if let Some(key) = key {
                     // Close the XML element.
-                    writer.write_event(Event::End(BytesEnd::new(key)))?;
+                    writer.write_event(Event::End(end_tag(key)))?;
                 }
             }
         }
